@@ -414,7 +414,11 @@ impl World {
         let k1 = self.v.resolve_id_address(&key_addr(self.seed, 0)).unwrap();
         let k2 = self.v.resolve_id_address(&key_addr(self.seed, 1)).unwrap();
         let o = match a {
-            "Send" => self.v.run(&from_id, &self.real_of(&call["to"]), &TokenAmount::from_whole(100), METHOD_SEND, None),
+            "Send" => {
+                let hundred = TokenAmount::from_whole(100);
+                let val = if self.v.balance(&from_id) >= hundred { hundred } else { zero.clone() };
+                self.v.run(&from_id, &self.real_of(&call["to"]), &val, METHOD_SEND, None)
+            }
             "Exec" => {
                 let code = call["code"].as_str().unwrap();
                 let ct = call["ct"].as_str().unwrap();
@@ -464,16 +468,31 @@ impl World {
                             })
                             .unwrap(),
                         ),
-                        "miner" => (*MINER_ACTOR_CODE_ID, RawBytes::default()),
+                        // well-formed parameters: if the creator/code matrix let this through, the
+                        // miner would really be created
+                        "miner" => (
+                            *MINER_ACTOR_CODE_ID,
+                            RawBytes::serialize(fil_actor_miner::MinerConstructorParams {
+                                owner: k1,
+                                worker: self.worker,
+                                control_addresses: vec![],
+                                window_post_proof_type: RegisteredPoStProof::StackedDRGWindow32GiBV1P1,
+                                peer_id: b"peer".to_vec(),
+                                multi_addresses: vec![],
+                            })
+                            .unwrap(),
+                        ),
                         "evm" => (*EVM_ACTOR_CODE_ID, RawBytes::default()),
                         "account" => (*ACCOUNT_ACTOR_CODE_ID, RawBytes::default()),
                         "placeholder" => (*PLACEHOLDER_ACTOR_CODE_ID, RawBytes::default()),
                         x => panic!("exec code {x}"),
                     };
+                    let thousand = TokenAmount::from_whole(1000);
+                    let val = if code == "miner" && self.v.balance(&sender) >= thousand { thousand } else { zero.clone() };
                     let o = self.v.run_p(
                         &sender,
                         &INIT_ACTOR_ADDR,
-                        &zero,
+                        &val,
                         fil_actor_init::Method::Exec as u64,
                         &ExecParams { code_cid: cid, constructor_params: params },
                     );
@@ -492,16 +511,28 @@ impl World {
                     creator: EthAddress(id_to_eth(k1.id().unwrap())),
                     initcode: RawBytes::new(self.initcode(call["init"].as_str().unwrap())),
                 };
+                // `code` (default evm): a non-EAM caller is also tried with a code whose constructor
+                // would accept any f4 address, so that a widened caller check cannot hide
+                let (cid, cparams) = if call["code"] == "multisig" {
+                    (
+                        *MULTISIG_ACTOR_CODE_ID,
+                        RawBytes::serialize(fil_actor_multisig::ConstructorParams {
+                            num_approvals_threshold: 1,
+                            signers: vec![k1],
+                            unlock_duration: 0,
+                            start_epoch: 0,
+                        })
+                        .unwrap(),
+                    )
+                } else {
+                    (*EVM_ACTOR_CODE_ID, RawBytes::serialize(ctor).unwrap())
+                };
                 let o = self.v.run_p(
                     &sender,
                     &INIT_ACTOR_ADDR,
                     &zero,
                     fil_actor_init::Method::Exec4 as u64,
-                    &Exec4Params {
-                        code_cid: *EVM_ACTOR_CODE_ID,
-                        constructor_params: RawBytes::serialize(ctor).unwrap(),
-                        subaddress: RawBytes::new(eth.to_vec()),
-                    },
+                    &Exec4Params { code_cid: cid, constructor_params: cparams, subaddress: RawBytes::new(eth.to_vec()) },
                 );
                 if o.ok() {
                     let r: ExecReturn = o.de();
@@ -540,6 +571,133 @@ impl World {
     }
 }
 
+// ------------------------------------------------------------------------------------------------
+// guided random schedules (impl -> spec direction): longer and deeper programs than the model's
+// alphabet, repeated salts, sends to addresses that later creations produce, more senders
+
+const INITS: [&str; 7] = ["ok", "ok", "ok", "revert", "sd", "empty", "ok"];
+
+fn random_prog(rng: &mut Rng, depth: u32, contracts: &[Value]) -> Value {
+    let n = rng.range(1, if depth == 0 { 4 } else { 3 });
+    let mut ops = vec![];
+    for _ in 0..n {
+        let salt = format!("s{}", rng.range(1, 3));
+        let o = match rng.below(100) {
+            0..=24 => json!({"op": "create", "init": *rng.pick(&INITS)}),
+            25..=49 => json!({"op": "create2", "salt": salt, "init": *rng.pick(&INITS)}),
+            50..=74 if depth < 3 => {
+                let to = if rng.chance(45) || contracts.is_empty() {
+                    json!(["last"])
+                } else {
+                    rng.pick(contracts).clone()
+                };
+                json!({"op": "call", "to": to, "prog": random_prog(rng, depth + 1, contracts)})
+            }
+            75..=87 => {
+                let ben = match rng.below(100) {
+                    0..=59 => json!(["caller"]),
+                    60..=84 => json!(["raw", format!("x{}", rng.range(1, 3))]),
+                    _ if !contracts.is_empty() => json!(["c2", rng.pick(contracts).clone(), salt, "ok"]),
+                    _ => json!(["caller"]),
+                };
+                json!({"op": "destroy", "ben": ben})
+            }
+            88..=93 => json!({"op": "revert"}),
+            _ => json!({"op": "create", "init": "ok"}),
+        };
+        ops.push(o);
+    }
+    json!(ops)
+}
+
+fn random_call(rng: &mut Rng, w: &World) -> Value {
+    let st = w.project();
+    let mut contracts = vec![];
+    let mut nonces = vec![];
+    let mut senders = vec![json!(["key", "k1"]), json!(["key", "k1"]), json!(["key", "k2"])];
+    let mut placeholders = vec![];
+    let mut seqs: HashMap<String, u64> = HashMap::new();
+    for a in st["act"].as_array().unwrap() {
+        let r = &a[1];
+        match r["code"].as_str().unwrap() {
+            "evm" => {
+                contracts.push(r["addr"].clone());
+                nonces.push(r["nonce"].as_u64().unwrap());
+            }
+            "placeholder" | "ethaccount" => {
+                placeholders.push(r["addr"].clone());
+                if r["addr"][0] == "raw" {
+                    senders.push(r["addr"].clone());
+                }
+            }
+            _ => {}
+        }
+        seqs.insert(r["addr"].to_string(), r["seq"].as_u64().unwrap());
+    }
+    let from = rng.pick(&senders).clone();
+    let users = [json!(["key", "k1"]), json!(["key", "k2"]), json!(["raw", "e1"])];
+    match rng.below(100) {
+        0..=44 if !contracts.is_empty() => {
+            json!({"a": "Invoke", "from": from, "to": rng.pick(&contracts).clone(),
+                   "prog": random_prog(rng, 0, &contracts)})
+        }
+        45..=56 => json!({"a": "CreateExternal", "from": from, "init": *rng.pick(&INITS)}),
+        57..=74 => {
+            // plain sends: new keys, new f4 addresses, addresses of future creations
+            let to = match rng.below(100) {
+                0..=14 => json!(["key", format!("k{}", rng.range(3, 5))]),
+                15..=34 => json!(["raw", *rng.pick(&["e1", "e2", "x1", "x2", "x3"])]),
+                35..=54 => {
+                    let u = rng.pick(&users).clone();
+                    let mut s = seqs.get(&u.to_string()).cloned().unwrap_or(0);
+                    if u == from {
+                        s += 1;
+                    }
+                    json!(["ext", u, s + rng.below(2)])
+                }
+                55..=79 if !contracts.is_empty() => {
+                    json!(["c2", rng.pick(&contracts).clone(), format!("s{}", rng.range(1, 3)), *rng.pick(&INITS)])
+                }
+                _ if !contracts.is_empty() => {
+                    let i = rng.below(contracts.len() as u64) as usize;
+                    json!(["c1", contracts[i].clone(), nonces[i] + rng.below(2)])
+                }
+                _ => json!(["key", "k3"]),
+            };
+            json!({"a": "Send", "from": from, "to": to})
+        }
+        75..=87 => {
+            let ok = rng.chance(70);
+            let extra = if rng.chance(40) { json!(["key", format!("k{}", rng.range(3, 5))]) } else { none() };
+            match rng.below(10) {
+                0..=2 => json!({"a": "Exec", "from": from, "ct": "account", "code": "multisig", "ctorOK": ok, "extra": extra}),
+                3..=4 => json!({"a": "Exec", "from": from, "ct": "account", "code": "paych", "ctorOK": ok, "extra": none()}),
+                5 => json!({"a": "Exec", "from": ["key", "k1"], "ct": "power", "code": "miner", "ctorOK": ok, "extra": none()}),
+                6 => json!({"a": "Exec", "from": from, "ct": "account",
+                            "code": *rng.pick(&["miner", "evm", "account", "placeholder"]), "ctorOK": true, "extra": none()}),
+                7 => json!({"a": "Exec", "from": ["builtin", "power"], "ct": "power",
+                            "code": *rng.pick(&["evm", "account", "multisig", "paych"]), "ctorOK": true, "extra": none()}),
+                _ => json!({"a": "Exec", "from": ["builtin", "eam"], "ct": "eam",
+                            "code": *rng.pick(&["evm", "miner", "multisig"]), "ctorOK": true, "extra": none()}),
+            }
+        }
+        _ => {
+            let mut targets = vec![json!(["raw", "e2"]), json!(["raw", "x1"]), json!(["raw", "x3"])];
+            targets.extend(contracts.iter().cloned());
+            targets.extend(placeholders.iter().cloned());
+            let f4 = rng.pick(&targets).clone();
+            match rng.below(10) {
+                0..=6 => json!({"a": "Exec4", "from": ["builtin", "eam"], "ct": "eam", "f4": f4,
+                                "init": *rng.pick(&["ok", "ok", "revert", "sd"])}),
+                7..=8 => json!({"a": "Exec4", "from": from, "ct": "account", "f4": f4, "init": "ok",
+                                "code": *rng.pick(&["evm", "multisig"])}),
+                _ => json!({"a": "Exec4", "from": ["builtin", "power"], "ct": "power", "f4": f4, "init": "ok",
+                            "code": *rng.pick(&["evm", "multisig"])}),
+            }
+        }
+    }
+}
+
 pub fn main(args: &[String]) {
     // the binary silences the panic hook (actor panics are outcomes); a panic of the DRIVER itself
     // must still be visible
@@ -574,6 +732,22 @@ fn main_inner(args: &[String]) {
             if let Some(s) = sched_out.as_mut() {
                 s.line(&json!(beh));
             }
+        }
+    }
+    let n = arg_u64(args, "--random", 0);
+    let len = arg_u64(args, "--len", 12);
+    let mut rng = Rng::new(seed);
+    for i in 0..n {
+        let w = World::new(seed.wrapping_mul(1000) + i);
+        begin(&mut t, &w);
+        let mut calls = vec![];
+        for _ in 0..len {
+            let call = random_call(&mut rng, &w);
+            t.line(&w.step(&call));
+            calls.push(call);
+        }
+        if let Some(s) = sched_out.as_mut() {
+            s.line(&json!(calls));
         }
     }
     t.flush();
